@@ -53,6 +53,8 @@ def frame_str(img, f):
     s += ["pals", len(pals)] + [chan_str(*p) for p in pals]
     s += ["tree", tree_str(f.get("tree", ("L", 0, 0, 0, 1)))]
     s += ["coded", int(f.get("coded", False))]
+    if f.get("ent"):
+        s += ["ent", f["ent"]]
     s += ["chans", len(f["chans"])] + [chan_str(*c) for c in f["chans"]]
     return " ".join(map(str, s))
 
@@ -81,6 +83,9 @@ def parse_enc_output(line):
         assert w[i] == "frame"
         ng, npth = int(w[i + 1]), int(w[i + 2])
         paths = w[i + 3:i + 3 + npth]
+        ent = 0
+        if paths and paths[0].startswith("ent"):
+            ent = int(paths[0][3:]); paths = paths[1:]
         i += 3 + npth
         nch = int(w[i]); i += 1
         chans = []
@@ -102,7 +107,7 @@ def parse_enc_output(line):
                 data = list(map(int, w[i + 2:i + 2 + cw * ch]))
                 i += 2 + cw * ch
                 model.append((cw, ch, data))
-        frames.append({"num_groups": ng, "paths": paths, "chans": chans, "model": model})
+        frames.append({"num_groups": ng, "paths": paths, "chans": chans, "model": model, "ent": ent})
     return hexs, frames
 
 
@@ -251,8 +256,31 @@ def gen_modular_image(rng, opts=None):
     wp = None
     if rng.random() < 0.3:
         wp = [rng.randrange(32) for _ in range(7)] + [rng.randrange(16) for _ in range(4)]
-    frame = {"gshift": gshift, "chans": chans, "tr": trs, "pals": pals, "tree": tree, "wp": wp}
+    frame = {"gshift": gshift, "chans": chans, "tr": trs, "pals": pals, "tree": tree, "wp": wp,
+             "ent": (o.get("ent") if o.get("ent") is not None else rng.choice([0, 0, 1, 1, 2, 2, 3, 4]))}
     return img, [frame]
+
+
+def gen_fast_lossless_image(rng):
+    """single-leaf gradient trees with LZ77 runs of distance 1: the shape that switches the decoder
+    to its RLE 'fast lossless' path (jxl-modular image.rs decode_fast_lossless)"""
+    w, h = rng.choice([1, 2, 3, 7, 16, 33, 64]), rng.choice([1, 2, 5, 9, 20])
+    bits = rng.choice([8, 8, 10, 12, 16])
+    gray = rng.random() < 0.4
+    ncol = 1 if gray else 3
+    img = {"w": w, "h": h, "bits": bits, "gray": gray, "buf16": bits <= 12 and rng.random() < 0.7, "ecs": []}
+    lo, hi = 0, (1 << bits) - 1
+    chans = [(w, h, gen_pixels(rng, w, h, lo, hi, rng.choice(["flat", "sparse", "stripes", "smooth", "noise"])))
+             for _ in range(ncol)]
+    ncl = rng.randint(1, 3)
+    if rng.random() < 0.5 or ncol == 1:
+        tree = ("L", 0, 5, 0, 1)
+    else:
+        tree = relabel_clusters(("D", 0, 0, ("L", rng.randrange(ncl), 5, 0, 1),
+                                 ("D", 0, -1, ("L", rng.randrange(ncl), 5, 0, 1), ("L", rng.randrange(ncl), 5, 0, 1))))
+    frame = {"gshift": rng.randrange(4), "chans": chans, "tr": [], "pals": [], "tree": tree, "wp": None,
+             "ent": rng.choice([3, 3, 4])}
+    return img, [frame], "fast-lossless"
 
 
 def gen_chain_tree(rng, prop, values, leaf_fn, redundant=False):
@@ -331,7 +359,8 @@ def gen_table_image(rng, kind=None):
         other = gen_tree(rng, 2, ncl, (lo, hi), nprev=0)
         tree = ("D", 0, rng.randint(0, 1), tree, other)
     tree = relabel_clusters(tree)
-    frame = {"gshift": rng.randrange(4), "chans": chans, "tr": [], "pals": [], "tree": tree, "wp": None}
+    frame = {"gshift": rng.randrange(4), "chans": chans, "tr": [], "pals": [], "tree": tree, "wp": None,
+             "ent": rng.choice([0, 1, 2, 3, 4])}
     return img, [frame], kind
 
 
@@ -363,5 +392,6 @@ def gen_palette_image(rng):
     tree = gen_tree(rng, rng.choice([0, 1, 2]), rng.randint(1, 4), (lo, hi), nprev=0)
     wp = None if rng.random() < 0.6 else [rng.randrange(32) for _ in range(7)] + [rng.randrange(16) for _ in range(4)]
     frame = {"gshift": rng.randrange(4), "chans": [pal, index_chan] + rest, "coded": True,
-             "tr": [("pal", 0, numc, nbc, nbd, dpred)], "pals": [], "tree": tree, "wp": wp}
+             "tr": [("pal", 0, numc, nbc, nbd, dpred)], "pals": [], "tree": tree, "wp": wp,
+             "ent": rng.choice([0, 1, 2, 3, 4])}
     return img, [frame], f"palette-{mode}-d{int(nbd>0)}"
